@@ -100,6 +100,9 @@ def check(prop, tier, root, do_selftest=True):
         failures = []
         if do_selftest:
             failures = selftest(mod, repo, run, tier) or []
+        if tier == 'thorough' and do_selftest:
+            from aylint import automutate
+            run.sweep = automutate.sweep(mod, repo, run)
         rc = run.finish(seed)
         if rc == 0 and failures:
             for name, exp, got, ok in run.selftest:
